@@ -39,6 +39,9 @@ RULE_VOCAB = [
     ("should", None), ("should_only", None), ("should_not", None),
     ("access_layers_that", None), ("be_accessed_by_layers_that", None), ("access_layers_except_layers_that", None),
     ("be_accessed_by_layers_except_layers_that", None), ("access_any_layer", None), ("be_accessed_by_any_layer", None),
+    # a layer name the architecture does not define (as a second subject / inside a batch it is still a violation of the
+    # one-subject rule and has to be rejected with a configuration error, not with whatever the lookup raises)
+    ("are_named", "Z"), ("are_named", ["A", "Z"]),
 ]
 
 
